@@ -6,7 +6,7 @@ p=props[pid]
 import os
 PREV=""
 prevs=[]
-for v in "abcdefgh":
+for v in "abcdefghijkl":
     if v == variant: break
     mp=f"/verif/seeded/{pid}{v}/meta.json"
     if variant and os.path.exists(mp):
